@@ -8,6 +8,7 @@ import (
 	"fmt"
 	"os"
 	"os/exec"
+	"path/filepath"
 	"runtime"
 	"strconv"
 	"syscall"
@@ -32,9 +33,10 @@ import (
 // makes of the stored bytes - is what runs from source here.
 
 type c15kv struct {
-	key []byte
-	val []byte
-	exp uint64
+	key     []byte
+	val     []byte
+	exp     uint64
+	flushed bool // written to a table file by a clean Close (until then it lives in the memtable's log file)
 }
 
 type c15store struct {
@@ -80,6 +82,14 @@ func c15reset() {
 	c15values = nil
 	c15writer = nil
 	c15batches = map[*badger.WriteBatch]*c15txn{}
+	c15tampered = nil
+	// badger's package initialiser is not run under the executor: its error values are nil there
+	if badger.ErrDBClosed == nil {
+		badger.ErrDBClosed = errors.New("DB Closed")
+	}
+	if badger.ErrBlockedWrites == nil {
+		badger.ErrBlockedWrites = errors.New("Writes are blocked, possibly due to DropAll or Close")
+	}
 }
 
 func c15Open(opts badger.Options) (*badger.DB, error) {
@@ -93,6 +103,18 @@ func c15Open(opts badger.Options) (*badger.DB, error) {
 	db := new(badger.DB)
 	st := &c15store{dir: opts.Dir, inMemory: opts.InMemory}
 	if !opts.InMemory {
+		if len(c15tampered) > 0 {
+			// files of the directory were removed / renamed before the open: what only lived in
+			// the memtable's log files (everything since the last clean Close) cannot be replayed
+			var kept []c15kv
+			for _, kv := range c15disk[opts.Dir] {
+				if kv.flushed {
+					kept = append(kept, kv)
+				}
+			}
+			c15disk[opts.Dir] = kept
+			c15tampered = nil
+		}
 		st.kvs = append(st.kvs, c15disk[opts.Dir]...)
 	}
 	c15dbs[db] = st
@@ -117,7 +139,7 @@ func c15insert(kvs []c15kv, e c15kv) []c15kv {
 func c15Update(db *badger.DB, fn func(tx *badger.Txn) error) error {
 	st := c15dbs[db]
 	if st.closed {
-		return errors.New("db closed")
+		return badger.ErrDBClosed
 	}
 	tx := new(badger.Txn)
 	t := &c15txn{db: db}
@@ -134,7 +156,7 @@ func c15Update(db *badger.DB, fn func(tx *badger.Txn) error) error {
 func c15commit(t *c15txn, sync bool) error {
 	st := c15dbs[t.db]
 	if st.closed {
-		return errors.New("db closed")
+		return badger.ErrDBClosed
 	}
 	if c15failing {
 		c15failing = false
@@ -217,6 +239,12 @@ func c15SetEntry(tx *badger.Txn, e *badger.Entry) error {
 
 func c15CloseDB(db *badger.DB) error {
 	c15drain()
+	if st := c15dbs[db]; !st.inMemory {
+		img := c15disk[st.dir]
+		for i := range img {
+			img[i].flushed = true
+		}
+	}
 	c15dbs[db].closed = true
 	return nil
 }
@@ -272,6 +300,18 @@ func c15Repeat(ctx context.Context, interval time.Duration, action func()) conte
 }
 
 func c15MkdirAll(path string, perm os.FileMode) error { return nil }
+
+// the store's directory belongs to badger: whatever the provider removes or renames there
+// before opening it may be a committed write (memtable logs, value log, manifest)
+var c15tampered []string
+
+func c15Remove(name string) error      { c15tampered = append(c15tampered, name); return nil }
+func c15RemoveAll(path string) error   { c15tampered = append(c15tampered, path); return nil }
+func c15Rename(o, n string) error      { c15tampered = append(c15tampered, o); return nil }
+func c15Truncate(n string, _ int64) error { c15tampered = append(c15tampered, n); return nil }
+func c15Glob(pattern string) ([]string, error) {
+	return []string{filepath.Dir(pattern) + "/00001.mem"}, nil // an unclean exit leaves such files behind
+}
 
 // The stored value: Message.Encode / DecodeMessage are decided on their own
 // (VerifC15Value, package message); here they are an injective encoding and its inverse.
@@ -457,10 +497,19 @@ func VerifC15Restart(v *verifrt.T) {
 	// the broker stops
 	if clean {
 		v.Assert(s.Close() == nil, "C15.closes")
+		// connections are still being served for a moment: a store that arrives now must not
+		// be reported as done (nothing can be written any more)
+		if v.Bool("late-store") {
+			lid := message.NewID(message.Ssid{7, 9})
+			lid.SetTime(base)
+			late := message.Message{ID: lid, Channel: []byte("a/b/"), Payload: []byte("late"), TTL: 100000}
+			v.Assert(s.Store(&late) != nil, "C15.store-after-close-is-not-reported-as-done")
+		}
 	}
 	// ... and starts again on the same directory
 	s2 := NewSSD(nil)
 	v.Assert(s2.Configure(cfg) == nil, "C15.store-reopens")
+
 	v.Reach("restarted")
 
 	if v.Symbolic() {
